@@ -52,8 +52,9 @@ Qed.
 
 (* the same for a model that fails by itself (not through a pattern) *)
 Lemma kf_identity_model (mm : mmodel) pred out st :
-  (mm_measure mm = None \/ (forall x, mm_predicted mm x = None) \/
-   (forall a b, mm_innovation mm a b = None) \/ fst (mm_noisecov mm) = false) ->
+  (mm_measure mm = None \/ mm_predicted mm (kf_px pred) = None \/
+   (forall y yp, mm_measure mm = Some y -> mm_predicted mm (kf_px pred) = Some yp -> mm_innovation mm yp y = None) \/
+   fst (mm_noisecov mm) = false) ->
   r_out (kf_step_ mm pred out st) = pred /\ r_st (kf_step_ mm pred out st) = mkKfSt None (kf_py st).
 Proof.
   unfold kf_step. intros Hf.
@@ -63,8 +64,7 @@ Proof.
   destruct (mm_noisecov mm) as [okR R] eqn:E4; simpl in *.
   destruct okR; [|auto].
   destruct Hf as [Hf|[Hf|[Hf|Hf]]]; try discriminate.
-  - now rewrite Hf in E2.
-  - now rewrite Hf in E3.
+  rewrite (Hf y y0 eq_refl eq_refl) in E3. discriminate.
 Qed.
 
 Lemma kf_log (p : pattern) (y : Y) (h : X -> YP) (inn : YP -> Y -> NU) (R : RC) pred out st :
@@ -95,8 +95,9 @@ Lemma kf_lik_after_failure_reports_failure (p : pattern) (mm : mmodel) pred out 
 Proof. intros Hf. now destruct (kf_identity p mm pred out st Hf) as [_ ->]. Qed.
 
 Lemma kf_lik_after_failure_reports_failure_model (mm : mmodel) pred out st :
-  (mm_measure mm = None \/ (forall x, mm_predicted mm x = None) \/
-   (forall a b, mm_innovation mm a b = None) \/ fst (mm_noisecov mm) = false) ->
+  (mm_measure mm = None \/ mm_predicted mm (kf_px pred) = None \/
+   (forall y yp, mm_measure mm = Some y -> mm_predicted mm (kf_px pred) = Some yp -> mm_innovation mm yp y = None) \/
+   fst (mm_noisecov mm) = false) ->
   kf_get_lik kf_lik (r_st (kf_step_ mm pred out st)) = None.
 Proof. intros Hf. now destruct (kf_identity_model mm pred out st Hf) as [_ ->]. Qed.
 
@@ -139,6 +140,36 @@ Proof.
     destruct (mm_predicted mm _); simpl; [|auto].
     destruct (ut_moments _ y0); simpl.
     destruct (p Innovation); simpl; [auto|discriminate].
+Qed.
+
+(* pointwise form for an arbitrary sensor: the input of the transform and the predicted
+   measurement handed to innovation() are the ones of this very call *)
+Definition ukf_input (additive : bool) (mm : mmodel) (pred : G) : G :=
+  if additive then pred else ukf_augment pred (snd (mm_noisecov mm)).
+Definition ukf_pm (additive : bool) (mm : mmodel) (pred : G) (yp : YP) : PM :=
+  let pm := fst (ut_moments (ukf_input additive mm pred) yp) in
+  if additive then pm_add_noise pm (snd (mm_noisecov mm)) else pm.
+
+Lemma ukf_identity_model (additive : bool) (mm : mmodel) pred out st :
+  (mm_measure mm = None \/ mm_predicted mm (sigma_of (ukf_input additive mm pred)) = None \/
+   (forall y yp, mm_measure mm = Some y -> mm_predicted mm (sigma_of (ukf_input additive mm pred)) = Some yp ->
+                 mm_innovation mm (pm_mean (ukf_pm additive mm pred yp)) y = None)) ->
+  r_out (ukf_step_ additive mm pred out st) = pred /\
+  ukf_get_lik ukf_lik (r_st (ukf_step_ additive mm pred out st)) = None.
+Proof.
+  unfold ukf_step, ut_additive, ut_generic, ut_base, ukf_input, ukf_pm. intros Hf.
+  destruct (mm_measure mm) eqn:E1; simpl; [|auto].
+  destruct additive; simpl in *.
+  - destruct (mm_predicted mm (sigma_of pred)) eqn:E2; simpl; [|auto].
+    destruct (ut_moments pred y0) as [pm pxy] eqn:E3; simpl in *.
+    destruct (mm_innovation mm _ y) eqn:E4; simpl; [|auto].
+    destruct Hf as [Hf|[Hf|Hf]]; try discriminate.
+    specialize (Hf y y0 eq_refl eq_refl). rewrite E3 in Hf. simpl in Hf. rewrite Hf in E4. discriminate.
+  - destruct (mm_predicted mm _) eqn:E2; simpl; [|auto].
+    destruct (ut_moments _ y0) as [pm pxy] eqn:E3; simpl in *.
+    destruct (mm_innovation mm _ y) eqn:E4; simpl; [|auto].
+    destruct Hf as [Hf|[Hf|Hf]]; try discriminate.
+    specialize (Hf y y0 eq_refl eq_refl). rewrite E3 in Hf. simpl in Hf. rewrite Hf in E4. discriminate.
 Qed.
 
 (* the validity flag of getNoiseCovarianceMatrix has no influence at all *)
@@ -230,6 +261,22 @@ Proof.
   destruct Hf; discriminate.
 Qed.
 
+Lemma sukf_identity_model (sub_ok : bool) ncalls lcalls (mm mm' : mmodel) pred out st :
+  (mm_measure mm = None \/ sub_ok = false \/ mm_predicted mm (sigma_of pred) = None \/
+   (forall y yp, mm_measure mm = Some y -> mm_predicted mm (sigma_of pred) = Some yp ->
+                 mm_innovation mm (sukf_pred_mean yp) y = None)) ->
+  r_out (sukf_step_ sub_ok ncalls mm pred out st) = pred /\
+  sukf_get_lik sukf_lik lcalls mm' (r_st (sukf_step_ sub_ok ncalls mm pred out st)) = (None, []).
+Proof.
+  unfold sukf_step, sukf_get_lik. intros Hf.
+  destruct (mm_measure mm) eqn:E1; simpl; [|auto].
+  destruct sub_ok; simpl; [|auto].
+  destruct (mm_predicted mm (sigma_of pred)) eqn:E2; simpl; [|auto].
+  destruct (mm_innovation mm _ y) eqn:E3; simpl; [|auto].
+  destruct Hf as [Hf|[Hf|[Hf|Hf]]]; try discriminate.
+  rewrite (Hf y y0 eq_refl eq_refl) in E3. discriminate.
+Qed.
+
 Lemma sukf_noisecov_flag_ignored sub_ok ncalls (p : pattern) (mm : mmodel) pred out st :
   sukf_step_ sub_ok ncalls (inject p mm) pred out st = sukf_step_ sub_ok ncalls (inject (mask NoiseCov p) mm) pred out st.
 Proof.
@@ -286,7 +333,6 @@ Variable st_px : St -> X.
 Variable gl_dens : NU -> RC -> LK.
 Variable lk_zero1 : LK.
 Notation gl_likelihood_ := (gl_likelihood st_px gl_dens).
-Notation lik_eval_ := (lik_eval st_px gl_dens).
 Notation likmodel := (likmodel St LK).
 
 Lemma gl_reports_failure (p : pattern) (mm : mmodel) s :
@@ -329,15 +375,35 @@ Proof.
   destruct (gl_reports_failure p mm s Hf) as [E' _]. rewrite E' in E. discriminate.
 Qed.
 
+(* pointwise form: the failure is the sensor's own, and only at the arguments actually passed *)
+Lemma gl_reports_failure_pointwise (mm : mmodel) s :
+  (mm_measure mm = None \/ mm_predicted mm (st_px s) = None \/
+   (forall y yp, mm_measure mm = Some y -> mm_predicted mm (st_px s) = Some yp -> mm_innovation mm yp y = None) \/
+   fst (mm_noisecov mm) = false) ->
+  fst (gl_likelihood_ mm s) = None.
+Proof.
+  unfold gl_likelihood. intros Hf.
+  destruct (mm_measure mm) eqn:E1; simpl; [|auto].
+  destruct (mm_predicted mm (st_px s)) eqn:E2; simpl; [|auto].
+  destruct (mm_innovation mm y0 y) eqn:E3; simpl; [|auto].
+  destruct (mm_noisecov mm) as [okR R] eqn:E4; simpl in *.
+  destruct okR; [|auto].
+  destruct Hf as [Hf|[Hf|[Hf|Hf]]]; try discriminate.
+  rewrite (Hf y y0 eq_refl eq_refl) in E3. discriminate.
+Qed.
+
 (* the likelihood model under a pattern: which patterns make it fail *)
 Definition lik_fails (lm : likmodel) (p : pattern) : bool :=
   match lm with LGauss => fails_any p sites4 | LCustom _ => p Likelihood end.
+Notation inject_lik_ := (inject_lik lk_zero1).
+Notation lik_eval_ := (lik_eval st_px gl_dens lk_zero1).
 
 Lemma lik_eval_fails (lm : likmodel) (p : pattern) (mm : mmodel) s :
-  lik_fails lm p = true -> fst (lik_eval_ (inject_lik p lm) (inject p mm) s) = None.
+  lik_fails lm p = true -> fst (lik_eval_ (inject_lik_ p lm) (inject p mm) s) = (false, lk_zero1).
 Proof.
   destruct lm; simpl; intros Hf.
-  - now apply gl_reports_failure.
+  - destruct (gl_reports_failure p mm s Hf) as [E _].
+    destruct (gl_likelihood_ (inject p mm) s) as [o l]; simpl in *. now subst o.
   - now rewrite Hf.
 Qed.
 
@@ -345,20 +411,44 @@ Qed.
 Variable boot_wupd : G -> LK -> G.
 Notation boot_step_ := (boot_step st_px gl_dens lk_zero1 boot_wupd).
 
+(* general form: any likelihood model / sensor whose likelihood call reports failure *)
+Lemma boot_identity_model (lm : likmodel) (mm : mmodel) pred out st :
+  fst (fst (lik_eval_ lm mm (snd pred))) = false ->
+  r_out (boot_step_ lm mm pred out st) = pred /\
+  pf_get_lik (r_st (boot_step_ lm mm pred out st)) = fst (lik_eval_ lm mm (snd pred)).
+Proof.
+  intros E. unfold boot_step.
+  destruct (lik_eval_ lm mm (snd pred)) as [[v lk] l]; simpl in *. subst v. simpl. auto.
+Qed.
+
 Lemma boot_identity (lm : likmodel) (p : pattern) (mm : mmodel) pred out st :
   lik_fails lm p = true ->
-  r_out (boot_step_ (inject_lik p lm) (inject p mm) pred out st) = pred /\
-  pf_get_lik (r_st (boot_step_ (inject_lik p lm) (inject p mm) pred out st)) = (false, lk_zero1).
+  r_out (boot_step_ (inject_lik_ p lm) (inject p mm) pred out st) = pred /\
+  pf_get_lik (r_st (boot_step_ (inject_lik_ p lm) (inject p mm) pred out st)) = (false, lk_zero1).
 Proof.
-  intros Hf. unfold boot_step.
-  pose proof (lik_eval_fails lm p mm (snd pred) Hf) as E.
-  destruct (lik_eval_ _ _ _) as [o l]; simpl in E; subst o. simpl. auto.
+  intros Hf. pose proof (lik_eval_fails lm p mm (snd pred) Hf) as E.
+  destruct (boot_identity_model (inject_lik_ p lm) (inject p mm) pred out st) as [A B]; [now rewrite E|].
+  split; [exact A|]. now rewrite B, E.
+Qed.
+
+(* identity exactly when the likelihood fails (or the weight update happens to be the identity) *)
+Lemma boot_identity_iff (lm : likmodel) (mm : mmodel) pred out st :
+  r_out (boot_step_ lm mm pred out st) = pred <->
+  (fst (fst (lik_eval_ lm mm (snd pred))) = false \/
+   boot_wupd (fst pred) (snd (fst (lik_eval_ lm mm (snd pred)))) = fst pred).
+Proof.
+  unfold boot_step. destruct (lik_eval_ lm mm (snd pred)) as [[v lk] l]; simpl.
+  destruct v; simpl; destruct pred as [g s]; simpl; split.
+  - intros E. right. injection E; auto.
+  - intros [E|E]; [discriminate|]. now rewrite E.
+  - auto.
+  - auto.
 Qed.
 
 (* getLikelihood never depends on an earlier call *)
 Lemma boot_state_fresh (lm : likmodel) (mm : mmodel) pred out st st' :
   r_st (boot_step_ lm mm pred out st) = r_st (boot_step_ lm mm pred out st').
-Proof. unfold boot_step. destruct (lik_eval_ _ _ _) as [[lk|] l]; reflexivity. Qed.
+Proof. unfold boot_step. destruct (lik_eval_ _ _ _) as [[[|] lk] l]; reflexivity. Qed.
 
 Lemma boot_no_fault_gauss (y : Y) (h : X -> YP) (inn : YP -> Y -> NU) (R : RC) pred out st :
   let lk := gl_dens (inn (h (st_px (snd pred))) y) R in
@@ -367,20 +457,20 @@ Lemma boot_no_fault_gauss (y : Y) (h : X -> YP) (inn : YP -> Y -> NU) (R : RC) p
 Proof. reflexivity. Qed.
 
 Lemma boot_no_fault_custom f (mm : mmodel) pred out st lk :
-  f (snd pred) = Some lk ->
-  boot_step_ (inject_lik no_fault (LCustom f)) mm pred out st =
+  f (snd pred) = (true, lk) ->
+  boot_step_ (inject_lik_ no_fault (LCustom f)) mm pred out st =
   mkRes (boot_wupd (fst pred) lk, snd pred) (mkPfSt true lk) [Likelihood].
 Proof. intros E. unfold boot_step; simpl. now rewrite E. Qed.
 
 Lemma boot_log (lm : likmodel) (p : pattern) (y : Y) (h : X -> YP) (inn : YP -> Y -> NU) (R : RC) pred out st :
-  r_log (boot_step_ (inject_lik p lm) (inject p (total_mm y h inn R)) pred out st) =
+  r_log (boot_step_ (inject_lik_ p lm) (inject p (total_mm y h inn R)) pred out st) =
   match lm with LGauss => upto_first_failure p sites4 | LCustom _ => [Likelihood] end.
 Proof.
   destruct lm as [|f].
   - rewrite <- (gl_log p y h inn R (snd pred)). unfold boot_step, lik_eval, inject_lik.
     destruct (gl_likelihood _ _ _ _) as [[lk|] l]; reflexivity.
   - unfold boot_step, lik_eval, inject_lik.
-    destruct (p Likelihood); [reflexivity|]. destruct (f (snd pred)); reflexivity.
+    destruct (p Likelihood); [reflexivity|]. destruct (f (snd pred)) as [[|] lk]; reflexivity.
 Qed.
 
 (* GPF *)
@@ -388,47 +478,91 @@ Variable GS : Type.
 Variable gpf_sample : RNG -> G -> St -> St * RNG.
 Variable gpf_wupd : pset G St -> LK -> pset G St -> G.
 Notation gpf_step_ := (gpf_step st_px gl_dens lk_zero1 gpf_sample gpf_wupd).
+Notation gpf_step_aliased_ := (gpf_step_aliased st_px gl_dens lk_zero1 gpf_sample gpf_wupd).
+
+(* the states on which the likelihood is evaluated *)
+Definition gpf_states (gc : G -> G -> GS -> result G GS) (pred out : pset G St) (st : gpf_state LK RNG GS) : St :=
+  fst (gpf_sample (g_rng st) (r_out (gc (fst pred) (fst out) (g_inner st))) (snd out)).
+
+(* general form, for every wrapped correction, likelihood model and sensor *)
+Lemma gpf_identity_model (gc : G -> G -> GS -> result G GS) (lm : likmodel) (mm : mmodel) pred out st :
+  fst (fst (lik_eval_ lm mm (gpf_states gc pred out st))) = false ->
+  r_out (gpf_step_ gc lm mm pred out st) = pred /\
+  pf_get_lik (g_pf (r_st (gpf_step_ gc lm mm pred out st))) = fst (lik_eval_ lm mm (gpf_states gc pred out st)).
+Proof.
+  unfold gpf_step, gpf_states.
+  destruct (gpf_sample _ _ _) as [states rng']. simpl. intros E.
+  destruct (lik_eval_ lm mm states) as [[v lk] l]; simpl in *. subst v. simpl. auto.
+Qed.
 
 (* whatever the wrapped Gaussian correction did: an invalid likelihood restores
    the whole predicted set and getLikelihood reports failure *)
 Lemma gpf_identity (gc : G -> G -> GS -> result G GS) (lm : likmodel) (p : pattern) (mm : mmodel) pred out st :
   lik_fails lm p = true ->
-  r_out (gpf_step_ gc (inject_lik p lm) (inject p mm) pred out st) = pred /\
-  pf_get_lik (g_pf (r_st (gpf_step_ gc (inject_lik p lm) (inject p mm) pred out st))) = (false, lk_zero1).
+  r_out (gpf_step_ gc (inject_lik_ p lm) (inject p mm) pred out st) = pred /\
+  pf_get_lik (g_pf (r_st (gpf_step_ gc (inject_lik_ p lm) (inject p mm) pred out st))) = (false, lk_zero1).
 Proof.
-  intros Hf. unfold gpf_step.
-  destruct (gpf_sample _ _ _) as [states rng'].
-  pose proof (lik_eval_fails lm p mm states Hf) as E.
-  destruct (lik_eval_ _ _ _) as [o l]; simpl in E; subst o. simpl. auto.
+  intros Hf. pose proof (lik_eval_fails lm p mm (gpf_states gc pred out st) Hf) as E.
+  destruct (gpf_identity_model gc (inject_lik_ p lm) (inject p mm) pred out st) as [A B]; [now rewrite E|].
+  split; [exact A|]. now rewrite B, E.
+Qed.
+
+(* for EVERY wrapped correction: the output is the predicted set exactly when the
+   likelihood fails (or the complete update happens to reproduce the predicted set) *)
+Lemma gpf_identity_iff (gc : G -> G -> GS -> result G GS) (lm : likmodel) (mm : mmodel) pred out st :
+  let states := gpf_states gc pred out st in
+  let vl := fst (lik_eval_ lm mm states) in
+  let corr := (r_out (gc (fst pred) (fst out) (g_inner st)), states) in
+  r_out (gpf_step_ gc lm mm pred out st) = pred <->
+  (fst vl = false \/ (gpf_wupd pred (snd vl) corr, states) = pred).
+Proof.
+  unfold gpf_step, gpf_states.
+  destruct (gpf_sample _ _ _) as [states rng']. simpl.
+  destruct (lik_eval_ lm mm states) as [[v lk] l]; simpl.
+  destruct v; simpl; split; auto.
+  intros [E|E]; [discriminate|exact E].
 Qed.
 
 (* the failed step has nevertheless drawn random numbers and run the wrapped correction *)
-Lemma gpf_failed_step_side_effects (gc : G -> G -> GS -> result G GS) (lm : likmodel) (p : pattern) (mm : mmodel) pred out st :
+Lemma gpf_failed_step_side_effects (gc : G -> G -> GS -> result G GS) (lm : likmodel) (mm : mmodel) pred out st :
   let r := gc (fst pred) (fst out) (g_inner st) in
-  g_rng (r_st (gpf_step_ gc (inject_lik p lm) (inject p mm) pred out st)) = snd (gpf_sample (g_rng st) (r_out r) (snd out)) /\
-  g_inner (r_st (gpf_step_ gc (inject_lik p lm) (inject p mm) pred out st)) = r_st r.
+  g_rng (r_st (gpf_step_ gc lm mm pred out st)) = snd (gpf_sample (g_rng st) (r_out r) (snd out)) /\
+  g_inner (r_st (gpf_step_ gc lm mm pred out st)) = r_st r.
 Proof.
   unfold gpf_step.
   destruct (gpf_sample _ _ _) as [states rng'].
-  destruct (lik_eval_ _ _ _) as [[lk|] l]; simpl; auto.
+  destruct (lik_eval_ _ _ _) as [[[|] lk] l]; simpl; auto.
 Qed.
 
 (* the wrapped correction could not use the measurement (it returned the
    predicted mixture) but the likelihood model reports a value: the set is
    re-sampled around the PREDICTED moments and re-weighted *)
-Lemma gpf_inner_failure_not_detected (gc : G -> G -> GS -> result G GS) f (mm : mmodel) pred out st lk :
+Lemma gpf_inner_failure_not_detected (gc : G -> G -> GS -> result G GS) (lm : likmodel) (mm : mmodel) pred out st lk :
   r_out (gc (fst pred) (fst out) (g_inner st)) = fst pred ->
   let states := fst (gpf_sample (g_rng st) (fst pred) (snd out)) in
-  f states = Some lk ->
-  r_out (gpf_step_ gc (LCustom f) mm pred out st) = (gpf_wupd pred lk (fst pred, states), states).
+  fst (lik_eval_ lm mm states) = (true, lk) ->
+  r_out (gpf_step_ gc lm mm pred out st) = (gpf_wupd pred lk (fst pred, states), states).
 Proof.
   intros E states Ef. unfold gpf_step. rewrite E.
   fold states. destruct (gpf_sample _ _ _) as [s rng'] eqn:Es. simpl in states. subst states.
-  simpl. rewrite Ef. reflexivity.
+  destruct (lik_eval_ lm mm s) as [[v lk'] l]. simpl in Ef. inversion Ef; subst. reflexivity.
+Qed.
+
+(* one object as predicted and corrected set, invalid likelihood, wrapped correction
+   returning its input: the "restored" object carries the re-drawn states *)
+Lemma gpf_aliased_failure_redraws (gc : G -> G -> GS -> result G GS) (lm : likmodel) (mm : mmodel) pred st :
+  r_out (gc (fst pred) (fst pred) (g_inner st)) = fst pred ->
+  let states := fst (gpf_sample (g_rng st) (fst pred) (snd pred)) in
+  fst (fst (lik_eval_ lm mm states)) = false ->
+  r_out (gpf_step_aliased_ gc lm mm pred st) = (fst pred, states).
+Proof.
+  intros E states Ef. unfold gpf_step_aliased. rewrite E.
+  fold states. destruct (gpf_sample _ _ _) as [s rng'] eqn:Es. simpl in states. subst states.
+  destruct (lik_eval_ lm mm s) as [[v lk'] l]. simpl in Ef. subst v. reflexivity.
 Qed.
 
 Lemma gpf_log (gc : G -> G -> GS -> result G GS) (lm : likmodel) (p : pattern) (y : Y) (h : X -> YP) (inn : YP -> Y -> NU) (R : RC) pred out st :
-  r_log (gpf_step_ gc (inject_lik p lm) (inject p (total_mm y h inn R)) pred out st) =
+  r_log (gpf_step_ gc (inject_lik_ p lm) (inject p (total_mm y h inn R)) pred out st) =
   r_log (gc (fst pred) (fst out) (g_inner st)) ++
   match lm with LGauss => upto_first_failure p sites4 | LCustom _ => [Likelihood] end.
 Proof.
@@ -438,7 +572,7 @@ Proof.
   - rewrite <- (gl_log p y h inn R states). unfold lik_eval, inject_lik.
     destruct (gl_likelihood _ _ _ _) as [[lk|] l]; reflexivity.
   - unfold lik_eval, inject_lik.
-    destruct (p Likelihood); [reflexivity|]. destruct (f states); reflexivity.
+    destruct (p Likelihood); [reflexivity|]. destruct (f states) as [[|] lk]; reflexivity.
 Qed.
 
 Lemma gpf_no_fault_gauss (gc : G -> G -> GS -> result G GS) (y : Y) (h : X -> YP) (inn : YP -> Y -> NU) (R : RC) pred out st :
